@@ -101,7 +101,15 @@ fn apply_op(s: &mut Stream, tree: &mut T) -> &'static str {
         1 => {
             if let Some(T::Chance(_, outs)) = pick_node(s, tree, &|n| matches!(n, T::Chance(_, o) if !o.is_empty())) {
                 let i = s.below(outs.len());
-                outs[i].0 = [0.0, -1.0, f64::NAN, f64::INFINITY, -0.0, f64::NEG_INFINITY][s.below(6)];
+                let k = s.below(8);
+                if k >= 6 {
+                    // every weight of the node negative: the total is negative as well, so the
+                    // normalised values would all be positive again
+                    let f = if k == 6 { -1.0 } else { -2.0 };
+                    outs.iter_mut().for_each(|o| o.0 *= f);
+                    return "all-weights-negative";
+                }
+                outs[i].0 = [0.0, -1.0, f64::NAN, f64::INFINITY, -0.0, f64::NEG_INFINITY][k];
                 return "bad-weight";
             }
             "none"
@@ -622,7 +630,7 @@ pub fn prop() -> Prop {
         cases_quick: 1_000_000,
         cases_thorough: 20_000_000,
         assumptions: &[
-            "don't-care zones: chance probability vectors differing by 1e-12..1e-6 relative; a single-outcome chance node sharing a label with a multi-outcome one",
+            "don't-care zones: chance probability vectors that are not bit-for-bit equal after normalisation but within 1e-6 relative; a single-outcome chance node sharing a label with a multi-outcome one",
             "an error for a non-finite payoff may be any GameError variant outside the seven existing ones",
         ],
         post: None,
